@@ -86,11 +86,11 @@ from props.c11 import deep_view
 with open(%(path)r, 'rb') as f:
     items = pickle.load(f)
 out = []
-for tab, what, blob in items:
+for tab, what, blob, objects, properties in items:
     pc = core.PyCtx.__new__(core.PyCtx)
     pc.n, pc.m, pc.rows = tab
-    pc.objects = [core.olabel(i) for i in range(pc.n)]
-    pc.properties = [core.plabel(j) for j in range(pc.m)]
+    pc.objects = list(objects)
+    pc.properties = list(properties)
     pc.opos = {o: i for i, o in enumerate(pc.objects)}
     pc.ppos = {p: j for j, p in enumerate(pc.properties)}
     try:
@@ -221,9 +221,9 @@ def run(run):
                     L2 = pickle.loads(pickle.dumps(ctx.lattice, proto))
                     check('pickle lattice proto %d' % proto, None, lattice=L2)
                 if len(fresh_items) < (60 if run.tier == 'quick' else 400) and count % 3 == 0:
-                    fresh_items.append((tab, 'context', pickle.dumps(ctx)))
+                    fresh_items.append((tab, 'context', pickle.dumps(ctx), list(pc.objects), list(pc.properties)))
                     fresh_expect.append((pc.line, base))
-                    fresh_items.append((tab, 'lattice', pickle.dumps(ctx.lattice)))
+                    fresh_items.append((tab, 'lattice', pickle.dumps(ctx.lattice), list(pc.objects), list(pc.properties)))
                     fresh_expect.append((pc.line, base))
             run.count('contexts')
             # the same table with awkward labels through the text carriers
@@ -256,12 +256,22 @@ def run(run):
                     raise RuntimeError('fresh-process loader failed: ' + r.stdout[-2000:])
                 with open(path + '.out', 'rb') as f:
                     outs = pickle.load(f)
-                for (tab, what, _), (line, base), v in zip(fresh_items, fresh_expect, outs):
+                for (tab, what, *_), (line, base), v in zip(fresh_items, fresh_expect, outs):
                     run.case(line + '|fresh ' + what + seed, True)
                     run.count('fresh-process ' + what)
                     if not same_view(v, base):
                         run.fail('pickle of %s loaded in a fresh interpreter (PYTHONHASHSEED=%s)' % (what, seed), v[:600], base[:600], [line, 'lattice'])
         # large lattices: pickling (known finding D3 above 330 concepts)
+        # a very wide table (row masks of more than 4300 decimal digits) through every pickle protocol
+        with guard(run, 'pickle protocols 0-5 of a 1 x 15000 context', ['wide 15000']):
+            wobjs, wprops = ['only'], ['w%d' % j for j in range(15000)]
+            wctx = concepts.Context(wobjs, wprops, [tuple(j % 7 == 0 or j == 14999 for j in range(15000))])
+            for proto in range(0, pickle.HIGHEST_PROTOCOL + 1):
+                w2 = pickle.loads(pickle.dumps(wctx, proto))
+                if not (w2 == wctx) or w2.extension(['w14999']) != ('only',):
+                    run.fail('pickle protocol %d of a 1 x 15000 context' % proto, None, None, ['wide 15000'])
+            run.case('wide 15000|pickle protocols', True, {'context': '1 x 15000'})
+            run.count('wide pickle protocols')
         big = [gen.contranominal(9)] + ([gen.ordinal(200)] if run.tier == 'thorough' else []) + [gen.ordinal(60), gen.contranominal(8)]
         for tab in big:
             pc = PyCtx(tab)
